@@ -117,7 +117,9 @@ def weave_tree(dst, contracts=None, extra_ops=None, auto_external=None):
             wv = apply_contracts(src, ops, modname)
             woven, spans, segs = wv.render()
         except (AnchorLost, LexError) as e:
-            raise Inconclusive(f'anchor lost: {e}')
+            inc = Inconclusive(f'anchor lost: {e}')
+            inc.inner = getattr(e, 'inner', None)
+            raise inc
         if not wv.unweave_check(woven, spans):
             raise Inconclusive(f'un-weave self-check failed for {rel}')
         with open(os.path.join(dst, rel), 'w') as fo:
@@ -308,7 +310,7 @@ def function_results(res):
     return out
 
 
-def verify_isolating(scratch, extra=(), max_rounds=6, log=None):
+def verify_isolating(scratch, extra=(), max_rounds=8, log=None):
     """Weave and run Verus; when Verus rejects the crate because a function body uses a construct it does not support,
     re-weave with that function's body left outside (external_body, contract kept as an assumption) and try again.
     -> (woven, res, fails, hard, auto_external:list of (file, fnpath, reason))"""
@@ -316,7 +318,18 @@ def verify_isolating(scratch, extra=(), max_rounds=6, log=None):
     woven = res = fails = hard = None
     for rnd in range(max_rounds):
         d = os.path.join(scratch, f'woven{rnd}')
-        woven = weave_tree(d, auto_external=list(auto.keys()))
+        try:
+            woven = weave_tree(d, auto_external=list(auto.keys()))
+        except Inconclusive as e:
+            # an anchor INSIDE a function was lost (the function was restructured): keep its contract, leave its body outside
+            inner = getattr(e, 'inner', None)
+            if inner and inner not in auto:
+                auto[inner] = str(e)[:200]
+                shutil.rmtree(d, ignore_errors=True)
+                if log:
+                    log(f'round {rnd}: {e}; leaving {inner} outside the verifier')
+                continue
+            raise
         res = run_verus(woven, extra)
         fails, hard = classify(woven, res)
         comp = [h for h in hard if h['kind'] == 'compile']
@@ -340,4 +353,6 @@ def verify_isolating(scratch, extra=(), max_rounds=6, log=None):
         if not new:
             break
         shutil.rmtree(d, ignore_errors=True)
+    if woven is None:
+        raise Inconclusive('could not weave: ' + '; '.join(auto.values())[:300])
     return woven, res, fails, hard, [(f, p, why) for (f, p), why in auto.items()]
